@@ -1012,6 +1012,7 @@ func runC10(c *run.Ctx, s *kit.Summary) {
 	diff(st, c, s)
 	textStreams(c, r, s)
 	reportCommand(c, r, s)
+	multiFileReports(c, r, s)
 }
 
 func replay(c *run.Ctx, r *kit.Rng, s *kit.Summary) {
